@@ -30,8 +30,6 @@
      StaleTail    the code writes  best_solutions[row, :L] = ...  : columns beyond L keep what an EARLIER, longer incumbent
                   left there (ActiveSearch on variable-length problems)
      EASStartMod  forward_eas takes  select_start_nodes(td, S + 1) % S : on depot problems customer S becomes node 0
-     EASGroupAsCoded  see EASGroupRow: with R > 1 parallel runs the pinned code regroups rows of different instances together
-                  (and then fails on a shape mismatch)
      OptSteps     optimiser steps per iteration (the pinned code computes the loss and calls backward, but never opt.step())
      Aliased      original_policy_state = policy.state_dict() shares storage with the live parameters, so
                   load_state_dict(original_policy_state) restores nothing
@@ -44,7 +42,7 @@ CONSTANTS Method,        \* "AS" | "EAS"
           DevSlots,      \* per-instance rollout slots (1..S1*R*A) at which a choice may deviate from its base entry
           Stops,         \* iterations after which the run-time limit may be found exceeded (subset of 1..MaxIters)
           Focuses,       \* batches (0-based) that may be the focus batch
-          StaleTail, EASStartMod, EASGroupAsCoded, OptSteps, Aliased
+          StaleTail, EASStartMod, OptSteps, Aliased
 
 World == JsonDeserialize(IOEnv.WORLD_FILE)
 NegInf == 0 - 2000000000        \* below every reward in integer units (TLC integers are 32 bit)
@@ -84,13 +82,11 @@ RowB(f)  == ((f - 1) % Bk) + 1                             \* batch row that own
 SlotS(f) == ((f - 1) \div (Copies * Bk)) + 1               \* start slot 1..S1
 CopyOf(f) == (((f - 1) % (Copies * Bk)) \div Bk) + 1       \* (run, augmentation) copy 1..R*A
 SlotK(f) == (SlotS(f) - 1) * Copies + CopyOf(f)            \* per-instance rollout slot 1..S1*R*A
-\* EAS regroups the flat rows per instance: entry [x][c][s] (instance row x, copy c = (run, augmentation), start s) is flat row
-\* (s-1)*Copies*Bk + (c-1)*Bk + x.  EASGroupAsCoded: the pinned code calls unbatchify(x, (R*Bk, A, S1)), i.e. it reads entry
-\* [x][a][s], x in 1..R*Bk, at flat row (s-1)*Copies*Bk + (a-1)*(R*Bk) + x  -- the same thing only for R = 1
-EASGroupRow(x, c, s) == IF EASGroupAsCoded THEN (s - 1) * (Copies * Bk) + (c - 1) * (par.R * Bk) + x
-                        ELSE (s - 1) * (Copies * Bk) + (c - 1) * Bk + x
-\* ... and ranks reward.reshape(R*Bk, A*S1): position (a-1)*S1 + s
-EASRank(f) == (((CopyOf(f) - 1) % par.A)) * S1 + SlotS(f)
+\* EAS regroups the flat rows per instance with unbatchify: entry [x][c][s] (instance row x, copy c = (run, augmentation),
+\* start s) is flat row (s-1)*Copies*Bk + (c-1)*Bk + x
+EASGroupRow(x, c, s) == (s - 1) * (Copies * Bk) + (c - 1) * Bk + x
+\* ... and ranks reward.reshape(Bk, Copies*S1): position (c-1)*S1 + s
+EASRank(f) == (CopyOf(f) - 1) * S1 + SlotS(f)
 
 \* select_start_nodes (rl4co.utils.ops): TSP node j mod NN; depot problems customer (j mod N) + 1, N = NN - 1
 EnvStart(j) == IF par.env = "tsp" THEN j % par.NN ELSE (j % (par.NN - 1)) + 1
@@ -227,8 +223,7 @@ Monotone == (Live /\ it > 1 /\ ~\A b \in 1..Bk : maxRew[b] >= prev.maxRew[b]) =>
 \* their instance
 RowsKeepInstance == (Live /\ ~\A f \in DOMAIN rolls : rolls[f].i = Inst(bi, RowB(f))) => MFail("RowsKeepInstance")
 EASGroupOwn == (par # <<>> /\ pc = "iter" /\ par.method = "EAS" /\
-                  ~\A x \in 1..(IF EASGroupAsCoded THEN par.R * Bk ELSE Bk), c \in 1..(IF EASGroupAsCoded THEN par.A ELSE Copies), s \in 1..S1 :
-                       RowB(EASGroupRow(x, c, s)) = ((x - 1) % Bk) + 1)
+                  ~\A x \in 1..Bk, c \in 1..Copies, s \in 1..S1 : RowB(EASGroupRow(x, c, s)) = x)
                => MFail("EASGroupOwn")
 \* C12: forced first moves are feasible first moves (never the depot), pairwise different over the S start slots
 StartsOK == (par # <<>> /\ pc = "iter" /\
